@@ -6,8 +6,11 @@ import (
 	"strings"
 	"time"
 
+	"golang.org/x/sync/semaphore"
+
 	"github.com/alibaba/RedisShake/pkg/simrt"
 	conf "github.com/alibaba/RedisShake/redis-shake/configure"
+	"github.com/alibaba/RedisShake/redis-shake/dbSync"
 	"github.com/alibaba/RedisShake/redis-shake/dbSync/slot"
 	"github.com/alibaba/RedisShake/redis-shake/dbSync/slotsupervisor"
 
@@ -31,6 +34,178 @@ const (
 var nbNames = []string{"master", "slave", "refuse", "error", "norole", "garbage"}
 
 func runC20(c *core.Ctx) *core.Violation {
+	if c.T.Choose(4) == 3 {
+		return runC20Chain(c)
+	}
+	return runC20Single(c)
+}
+
+// runC20Chain: the property is about every (re)start. A real DbSyncer runs Sync() against 2-5 node models; each
+// discovery is followed by a PSYNC that the chosen node refuses with an error reply, which makes the syncer restart and
+// rediscover (its own retry budget ends the chain). Between restarts the master role moves to a tape-chosen node,
+// possibly back to a node that was master before. Oracle, network level only: in every phase the PSYNC goes to the node
+// that reports master in that phase, and the syncer never gives up while a known node reports master.
+func runC20Chain(c *core.Ctx) *core.Violation {
+	t := c.T
+	c.Sub = "restart-chain"
+	env.DefaultOptions(conf.TypeSync)
+	lc := env.CaptureLog("info", 1<<20)
+	conf.Options.SourceType = conf.RedisTypeCluster
+	n := 2 + t.Choose(4)
+	const phases = 6
+	master := make([]int, phases)
+	for p := range master {
+		master[p] = t.Choose(n)
+		if p >= 2 && t.Choose(3) == 0 {
+			master[p] = master[p-2] // fail-back to an earlier master
+		}
+	}
+	// transient fault of node i on its first probe of phase p: 0 none, else nbRefuse/nbError/nbNoRole
+	transient := make([][]int, n)
+	for i := range transient {
+		transient[i] = make([]int, phases)
+		for p := range transient[i] {
+			if t.Choose(6) == 5 {
+				transient[i][p] = []int{nbRefuse, nbError, nbNoRole}[t.Choose(3)]
+			}
+		}
+	}
+	addrs := make([]string, n)
+	for i := range addrs {
+		addrs[i] = fmt.Sprintf("10.1.0.%d:7000", i+1)
+	}
+	order := t.Perm(n)
+	node := slot.SyncNode{Id: 0, Source: addrs[order[0]], SourcePassword: srcPassword, Target: []string{tgtAddr}, TargetPassword: tgtPassword, SlotLeftBoundary: 0, SlotRightBoundary: 5460}
+	for _, k := range order[1:] {
+		node.Slaves = append(node.Slaves, addrs[k])
+	}
+	var ms []string
+	for _, m := range master {
+		ms = append(ms, addrs[m])
+	}
+	c.Sample = map[string]interface{}{"sub": "restart-chain", "nodes": n, "source": node.Source, "slaves": node.Slaves, "master_by_phase": ms}
+	c.Key = hashBytes([]byte(fmt.Sprint("chain", node.Source, node.Slaves, ms, transient)))
+
+	phase := 0
+	probes := make([][]int, n) // probes[i][p]
+	for i := range probes {
+		probes[i] = make([]int, phases+1)
+	}
+	type psync struct {
+		phase int
+		node  int
+	}
+	var psyncs []psync
+	var viol *core.Violation
+	s := simrt.Run(c.TT, t, simrt.Config{MaxSteps: 1000000, MaxSimTime: 2 * time.Hour, Trace: c.Trace}, func(s *simrt.Sim) {
+		net := simnet.New(s)
+		if t.Choose(2) == 1 {
+			net.DefaultProfile = simnet.Profile{Split: 300, Latency: 300, MaxDelayMs: 50, ShortRead: 100}
+		}
+		ph := func() int {
+			if phase >= phases {
+				return phases - 1
+			}
+			return phase
+		}
+		for i := 0; i < n; i++ {
+			i := i
+			sv := modelredis.NewServer(s, net, fmt.Sprintf("node-%d", i), addrs[i])
+			sv.Password = srcPassword
+			faulty := func(kind int) bool { return transient[i][ph()] == kind && probes[i][ph()] == 0 }
+			sv.L.Refuse = func(int) bool {
+				if faulty(nbRefuse) {
+					probes[i][ph()]++
+					return true
+				}
+				return false
+			}
+			sv.Fail = func(conn, db int, args [][]byte) string {
+				if strings.EqualFold(string(args[0]), "info") && faulty(nbError) {
+					probes[i][ph()]++
+					return "LOADING Redis is loading the dataset in memory"
+				}
+				return ""
+			}
+			sv.InfoReplication = func() string {
+				norole := faulty(nbNoRole)
+				probes[i][ph()]++
+				switch {
+				case norole:
+					return "# Replication\r\nconnected_slaves:0\r\n"
+				case i == master[ph()]:
+					return "# Replication\r\nrole:master\r\nconnected_slaves:1\r\nmaster_repl_offset:100\r\n"
+				default:
+					return "# Replication\r\nrole:slave\r\nmaster_host:10.1.0.9\r\nmaster_link_status:up\r\n"
+				}
+			}
+			sv.Special = func(_ *modelredis.Server, cn *modelredis.ConnState, args [][]byte) bool {
+				if !strings.EqualFold(string(args[0]), "psync") {
+					return false
+				}
+				psyncs = append(psyncs, psync{ph(), i})
+				phase++ // the role moves before the next discovery
+				cn.C.Write([]byte("-NOMASTERLINK Can't SYNC while not connected with my master\r\n"))
+				return true
+			}
+		}
+		proc := s.NewProc("tool")
+		nd := node
+		s.GoProc(proc, "syncer", func() {
+			dbSync.NewDbSyncer(&nd, 9320, semaphore.NewWeighted(1)).Sync()
+		})
+		for i := 0; i < 12000 && s.Alive(proc) && len(psyncs) < phases; i++ {
+			s.Sleep(50 * time.Millisecond)
+		}
+		if proc.Panicked {
+			viol = core.Violate("go-panic", "restart-chain", "Go panic in the syncer: %s", firstLines(proc.PanicMsg, 6))
+			return
+		}
+		for _, ps := range psyncs {
+			if ps.node != master[ps.phase] {
+				viol = core.Violate("non-master-selected", "restart-chain", "restart %d: PSYNC was sent to %s, but %s reports the master role then (masters by phase %v)", ps.phase, addrs[ps.node], addrs[master[ps.phase]], ms)
+				return
+			}
+		}
+		if len(psyncs) > 1 {
+			c.Probe("rediscovery_after_restart")
+		}
+		for p := 2; p < len(psyncs); p++ {
+			if master[p] != master[p-1] && master[p] == master[p-2] {
+				c.Probe("fail_back_to_earlier_master")
+			}
+		}
+		if proc.Exited {
+			// the syncer gave up: fine once its restart budget is spent, never because no master was found
+			last := lc.LastPanic()
+			if strings.Contains(last, "find a master") || strings.Contains(strings.ToLower(last), "max retries") {
+				viol = core.Violate("master-missed", "restart-chain", "restart %d: the syncer gave up (%s) although %s reports the master role; nodes probed in that phase: %v", phase, env.ErrClass(last), addrs[master[ph()]], probesIn(probes, ph(), addrs))
+				return
+			}
+			if len(psyncs) == 0 {
+				viol = core.Violate("abort", "restart-chain,err="+env.ErrClass(last), "the syncer aborted before its first PSYNC: %s", last)
+			}
+			return
+		}
+		if len(psyncs) < phases {
+			viol = core.Violate("hang", "restart-chain", "the syncer neither progressed nor gave up within 600 s of simulated time (%d PSYNCs): %v", len(psyncs), s.TaskStates())
+		}
+	})
+	c.Absorb(s)
+	c.Log = lc.Tail(30)
+	c.Nontrivial = len(psyncs) > 0
+	return viol
+}
+
+func probesIn(probes [][]int, p int, addrs []string) []string {
+	var out []string
+	for i := range probes {
+		out = append(out, fmt.Sprintf("%s:%d", addrs[i], probes[i][p]))
+	}
+	return out
+}
+
+func runC20Single(c *core.Ctx) *core.Violation {
 	t := c.T
 	env.DefaultOptions(conf.TypeSync)
 	lc := env.CaptureLog("info", 1<<20)
@@ -269,7 +444,7 @@ func init() {
 			"the bounds (32 probes, 600 s) are far above the tool's current 7 rounds / 21 s so that they do not mirror them",
 		},
 		RealVsStub: "real: slotsupervisor (GetSlotState, getRedisNodeState), redisConnWrapper.DefaultRedisConnFactory, utils.OpenNetConn/AuthPassword, redigo; simulated: TCP incl. refused dials, node models with per-attempt behaviour, clock (the back-off sleeps), scheduling",
-		ProbeNames: []string{"no_master_error", "several_masters_round", "needed_retry", "source_changed"},
+		ProbeNames: []string{"no_master_error", "several_masters_round", "needed_retry", "source_changed", "rediscovery_after_restart", "fail_back_to_earlier_master"},
 		FaultNames: []string{"dial_refused"},
 	})
 }
